@@ -250,7 +250,7 @@ func xiuIndex(s string) int {
 
 var moments = ev.Register(&ev.P[momentCase]{
 	Name: "attributes_follow_defining_inputs",
-	Rule: "every civil day of the sweep years x slot representatives (all years in thorough) plus generated moments (23:xx, Jie instants, New Year, leap months); oracle: each of ~85 table-driven attributes equals the exported table entry (or exported decoder result) of its defining inputs, the inputs being the INDEPENDENT pillar model's (day/Exact/Exact2 day pillar, hour pillar, month pillar by Jie day or instant, year pillar by New Year / Lichun day / Lichun instant, lunar month and day); attributes without a per-key table feed the run-long functional-dependency map (conflicts are reported as replayable pairs); classical laws: the mansion of the next civil day is the next of the 28 in their fixed order, duty god is 建 <=> day branch = month branch and advances with the day branch, clash branch = branch + 6, clash stem = stem + 4 (mod 10); non-trivial: 23:xx, a Jie day, between New Year and Lichun, or a leap month",
+	Rule: "every civil day of the sweep years x slot representatives (all years in thorough) plus generated moments (23:xx, Jie instants, New Year, leap months); oracle: each of ~85 table-driven attributes equals the exported table entry (or exported decoder result) of its defining inputs, the inputs being the INDEPENDENT pillar model's (day/Exact/Exact2 day pillar, hour pillar, month pillar by Jie day or instant, year pillar by New Year / Lichun day / Lichun instant, lunar month and day); attributes without a per-key table feed the run-long functional-dependency map (conflicts are reported as replayable pairs); classical laws: the mansion of the next civil day is the next of the 28 in their fixed order, duty god is 建 <=> day branch = month branch and advances with the day branch, clash branch = branch + 6, clash stem = stem + 4 (mod 10); the fourteen year-almanac counts (几龙治水 …) re-derived from the sexagenary pillar of the independent New Year day; non-trivial: 23:xx, a Jie day, between New Year and Lichun, or a leap month",
 	Check: func(c momentCase) error {
 		x := newCtx(c.T)
 		// ask the exact-month (sect 2) lists first on the very object the table below is checked on
